@@ -1,6 +1,8 @@
 """C20 — Risk caps and configuration bounds hold under any update sequence."""
 from .. import sym, guards, arms, model
 from ..sym import tag, payload, kids
+from .. import norm
+from ..norm import N
 from .common import *
 
 EXPLANATION = ("R20.1 every stored ratio field of the engine / vAMM Config that can differ from the loaded one was validated against "
@@ -286,6 +288,7 @@ def run(ctx):
             continue
         writers += 1
         bad = None
+        bad_formula = None
         for p in oks:
             newv = None
             for ptr, v in p.ptr_out.items():
@@ -324,6 +327,19 @@ def run(ctx):
             ok = guards.path_satisfies(ix, p, cap_respected, None)
             if not ok:
                 bad = bad or (p, newv)
+            # the value written is the old counter plus the signed amount, floored at zero
+            nn = N(ix, newv)
+            okf = nn == ("int", 0)
+            if nn[0] == "mag" and nn[1][0] == "iadd":
+                ts = nn[1][1:]
+                has_old = any(t_[0] == "pos" and t_[1][0] == "leaf" and isinstance(t_[1][1], int) and tag(ix.inline(t_[1][1])) == "field" and
+                              payload(ix.inline(t_[1][1]))[0] == "open_interest_notional" for t_ in ts)
+                has_amt = any(t_[0] == "leaf" and isinstance(t_[1], int) and tag(ix.inline(t_[1])) == "param" for t_ in ts)
+                okf = has_old and has_amt
+            if not okf:
+                bad_formula = bad_formula or norm.show(nn)[:160]
+        ctx.inst("R20.5", "open-interest-formula:%s" % short_fn(f), bad_formula is None, f.where(),
+                 ("the counter is written as %s, not max(0, old counter + signed amount)" % bad_formula) if bad_formula else "counter' = max(0, counter + signed amount)")
         ctx.inst("R20.5", "open-interest-writer:%s" % short_fn(f), bad is None, f.where(),
                  "%d success paths; %s" % (len(oks), "every path that writes the counter has cap==0, not-an-increase, whitelisted, or (the value written) <= +cap" if bad is None else
                     "a path writes open_interest_notional = %s without comparing THAT value with the cap: %s" % (sym.show(bad[1], 5),
